@@ -158,7 +158,9 @@ def run_impl(inp, work):
             out['maxpos'] = int(p2._max_pos_per_read)
             out['workers'] = int(p2._cores)
             old = signal.signal(signal.SIGALRM, _alarm)
-            signal.alarm(20)
+            # (repeating: an alarm that goes off inside a callback whose exceptions are swallowed - a weak-reference
+            #  finaliser, __del__ - must come again)
+            signal.setitimer(signal.ITIMER_REAL, 20, 2)
             try:
                 with quiet():
                     grp = p2.compute()
@@ -171,7 +173,7 @@ def run_impl(inp, work):
                 out['err'] = err_of(e)
                 grp = p2.h5_results_grp
             finally:
-                signal.alarm(0)
+                signal.setitimer(signal.ITIMER_REAL, 0)
                 signal.signal(signal.SIGALRM, old)
             if grp is not None and 'completed_positions' in grp:
                 out['status'] = [int(x) for x in grp['completed_positions'][()]]
